@@ -324,7 +324,10 @@ class Exec:
 
     def st_Raise(self, st, rest, p):
         if st.exc is None:
-            raise OutOfSubset("bare raise")
+            cur = p.ghost.get("current_exception")
+            if cur is None:
+                raise OutOfSubset("bare raise outside an except block")
+            return self.finish(p, "raise", cur)
         e = st.exc
         if isinstance(e, ast.Call):
             name = ast.unparse(e.func)
@@ -358,6 +361,52 @@ class Exec:
             if pt is not None:
                 self.block(rest, pt)
         self.each(st.test, p, go)
+
+    def st_Try(self, st, rest, p):
+        """try/except (no finally): an exception of the body is routed to the first handler whose class matches; when
+        the match cannot be decided (a synthetic 'any exception of callee X' against a specific class) BOTH outcomes
+        are explored"""
+        if st.finalbody:
+            raise OutOfSubset("try/finally (line %d)" % st.lineno)
+        sub = Exec(self.mod, self.reg, self.tier)
+        sub._depth = getattr(self, "_depth", 0)
+        outs = sub.run_block(list(st.body), p)
+        for (p2, kind, v) in outs:
+            if kind == "fallthrough":
+                self.block(list(st.orelse) + rest, p2)
+            elif kind == "return":
+                self.finish(p2, "return", v)
+            elif kind == "raise":
+                self.route_exception(st, rest, p2, v)
+            else:
+                raise OutOfSubset("loop inside try")
+
+    SYNTHETIC = ("ParserException", "GeneratorException", "CompileException", "ExecException", "BlackException", "Propagated", "RecompileFailed", "Exception")
+
+    def route_exception(self, st, rest, p, exc):
+        for h in st.handlers:
+            if h.type is None:
+                names = ["BaseException"]
+            elif isinstance(h.type, ast.Tuple):
+                names = [ast.unparse(x).split(".")[-1] for x in h.type.elts]
+            else:
+                names = [ast.unparse(h.type).split(".")[-1]]
+            if "BaseException" in names or "Exception" in names or exc.exc in names:
+                decided = True
+            elif exc.exc in self.SYNTHETIC:
+                decided = None       # an unknown concrete class: may or may not match
+            else:
+                decided = False
+            if decided is False:
+                continue
+            pm = p if decided else p.fork()
+            if h.name:
+                pm.env[h.name] = fresh("caught_" + exc.exc, Val)
+            pm.ghost["current_exception"] = exc
+            self.block(list(h.body) + rest, pm)
+            if decided:
+                return
+        self.finish(p, "raise", exc)
 
     def st_While(self, st, rest, p):
         """while with a sidecar invariant (registry.loop_invariant(lineno) -> callable(path)->(inv, havoc_names))"""
@@ -556,6 +605,8 @@ class Exec:
         # method or class attribute
         if self.reg.lookup_method(h["cls"], attr) is not None:
             return ("boundmethod", obj, attr)
+        if self.class_method(h["cls"], attr) is not None:
+            return ("boundmethod", obj, attr)
         m = self.reg.class_attr(h["cls"], attr)
         if m is not None:
             kind, val = m
@@ -566,6 +617,13 @@ class Exec:
         v = fresh("%s.%s" % (h["cls"].split(".")[-1], attr), sort)
         h["attrs"][attr] = v
         return v
+
+    def class_method(self, cls, attr):
+        """FunctionDef of a method of a first-party class defined in THIS module (for inlining contractless helpers)"""
+        mod = self.mod.modname
+        if not cls.startswith(mod + "."):
+            return None
+        return self.mod.func(cls[len(mod) + 1:] + "." + attr)
 
     def ex_JoinedStr(self, e, p):
         parts = [v.value if isinstance(v, ast.FormattedValue) else v for v in e.values]
@@ -871,6 +929,40 @@ class Exec:
         return out
 
     # ---------------------------------------------------------------- calls
+    INLINE_DEPTH = 3
+
+    def inline(self, q, pos, kw, p, node):
+        """a first-party module-level helper WITHOUT a sidecar contract: its body is executed in place (non-modular, but
+        sound: the real code runs).  Recorded in path.ghost['inlined'] so that evidence can list it."""
+        mod = self.mod.modname
+        if not q.startswith(mod + ".") or "." in q[len(mod) + 1:]:
+            return None
+        fn = self.mod.func(q[len(mod) + 1:])
+        if fn is None or fn.decorator_list:
+            return None
+        return self.inline_fn(fn, pos, kw, p, q)
+
+    def inline_fn(self, fn, pos, kw, p, q):
+        if getattr(self, "_depth", 0) >= self.INLINE_DEPTH:
+            raise OutOfSubset("helper inlining deeper than %d (recursion?) at %s" % (self.INLINE_DEPTH, q))
+        env = _bind_params(fn, pos, kw)
+        sub = Exec(self.mod, self.reg, self.tier)
+        sub._depth = getattr(self, "_depth", 0) + 1
+        saved = p.env
+        p.env = env
+        p.ghost.setdefault("inlined", []).append(q)
+        outs = sub.run(fn, p)
+        res = []
+        for (p2, kind, v) in outs:
+            p2.env = dict(saved)
+            if kind == "return":
+                res.append((p2, v))
+            elif kind == "raise":
+                res.append((p2, v))
+            else:
+                raise OutOfSubset("loop inside an inlined helper")
+        return res
+
     def ex_Call(self, e, p):
         out = []
         for p1, f in self.expr(e.func, p):
@@ -897,6 +989,9 @@ class Exec:
         if isinstance(f, QName):
             h = self.reg.lookup(f.q)
             if h is None:
+                inl = self.inline(f.q, pos, kw, p, node)
+                if inl is not None:
+                    return inl
                 raise OutOfSubset("unmodelled call %s (line %d)" % (f.q, node.lineno))
             return h(self, p, pos, kw, node)
         if isinstance(f, tuple) and f[0] == "boundmethod":
@@ -905,6 +1000,12 @@ class Exec:
                 cls = p.heap[base.oid]["cls"]
                 h = self.reg.lookup_method(cls, attr)
                 if h is None:
+                    fn = self.class_method(cls, attr)
+                    if fn is not None:
+                        static = any(isinstance(d, ast.Name) and d.id == "staticmethod" for d in fn.decorator_list)
+                        other = [d for d in fn.decorator_list if not (isinstance(d, ast.Name) and d.id == "staticmethod")]
+                        if not other:
+                            return self.inline_fn(fn, pos if static else [base] + pos, kw, p, "%s.%s" % (cls, attr))
                     raise OutOfSubset("unmodelled method %s.%s (line %d)" % (cls, attr, node.lineno))
                 return h(self, p, [base] + pos, kw, node)
             kind = _kind_of(base)
@@ -917,6 +1018,29 @@ class Exec:
             h = self.reg.lookup("<opaque-call>")
             return h(self, p, [f] + pos, kw, node)
         raise OutOfSubset("call of %r (line %d)" % (f, node.lineno))
+
+
+def _bind_params(fn, pos, kw):
+    params = [a.arg for a in fn.args.posonlyargs + fn.args.args]
+    if fn.args.vararg or fn.args.kwarg or fn.args.kwonlyargs:
+        raise OutOfSubset("inlined helper with *args / **kwargs / keyword-only parameters")
+    env = {}
+    for name, v in zip(params, pos):
+        env[name] = v
+    for k, v in kw.items():
+        if k not in params or k in env:
+            raise OutOfSubset("bad keyword %s for inlined helper" % k)
+        env[k] = v
+    defaults = fn.args.defaults
+    for name, d in zip(params[len(params) - len(defaults):], defaults):
+        if name not in env:
+            if not isinstance(d, ast.Constant):
+                raise OutOfSubset("non-constant default in inlined helper")
+            from .contract import _const
+            env[name] = _const(d.value)
+    if set(params) - set(env):
+        raise OutOfSubset("missing argument for inlined helper")
+    return env
 
 
 def _kind_of(v):
